@@ -64,7 +64,7 @@ func init() {
 	}
 	register(&PropSpec{
 		ID: "C13",
-		Explanation: "Decides the static discipline the single-flight design relies on, for all paths: every access to remoteKeySet.cachedKeys / inflight happens while mu is held (lock regions on the AST; one reasoned exception: the owner goroutine's read r.inflight.done(...) in updateKeys, whose field was written before the go statement and is replaced only by that goroutine under the lock); a new inflight record is created only when none exists, inside the same critical section that starts exactly one go r.updateKeys, and that goroutine receives a context detached from the caller's cancellation (context.WithoutCancel); updateKeys publishes the result exactly once, replaces the cache only when the download succeeded and frees the slot under the lock on every path; inflight results are written before close(doneCh) and read only after a receive from wait() in a select that also has the caller's ctx.Done() arm; cachedKeys has a single writer; a remote refresh is attempted at most once per verification and only after the cache could not decide. NOT decided: the property's core quantifier - every interleaving and every fault sequence of the JWKS endpoint; this is a lock/ownership/ordering discipline check, not a model check.",
+		Explanation: "Decides the static discipline the single-flight design relies on, for all paths: every access to remoteKeySet.cachedKeys / inflight happens while mu is held (lock regions on the AST; one reasoned exception: the owner goroutine's read r.inflight.done(...) in updateKeys, whose field was written before the go statement and is replaced only by that goroutine under the lock); a new inflight record is created only when none exists, inside the same critical section that starts exactly one go r.updateKeys, and that goroutine receives a context detached from the caller's cancellation (context.WithoutCancel); updateKeys publishes the result exactly once, replaces the cache only when the download succeeded and frees the slot under the lock on every path; inflight results are written before close(doneCh) and read only after a receive from wait() in a select that also has the caller's ctx.Done() arm; cachedKeys has a single writer; a remote refresh is attempted at most once per verification and only after the cache could not decide. NOT decided: the property's core quantifier - every interleaving and every fault sequence of the JWKS endpoint; this is a lock/ownership/ordering discipline check, not a model check. Round 3: no function of the key-set code writes into a slice it received (shared cache / single-flight result); a fresh inflight record may be spelled newInflight() or as a literal; HttpRequest reports success only for a decoded 200 body.",
 		RuleText:    "obligation = (rule, function, access or sink site); non-trivial when a lock region, guard fact or table row was needed",
 		Assumptions: []string{"sync.Mutex and channel close/receive give the usual happens-before edges", "http.Client honours the request context"},
 		Trusted:     []string{"go/types, go/cfg (x/tools v0.50.0)", "sync, context, net/http"},
